@@ -94,7 +94,10 @@ def rule_r1(ctx) -> List[R.Inst]:
 def rule_r2(ctx) -> List[R.Inst]:
     M = ctx.M
     rid = "C19.R2"
-    fn = M.nfn(SPEED)
+    from ..normal import with_roles
+    # the flag "this game has SVs": the local bound to hasattr(<chart>, "svs"), whatever it is called
+    fn = with_roles(M.nfn(SPEED), (("has_sv", lambda n, v, st: isinstance(v, ast.Call) and call_name(v) == "hasattr" and len(v.args) == 2 and
+                                     isinstance(v.args[1], ast.Constant) and v.args[1].value == "svs"),))
     file = M.mods[fn.mod].rel
     insts = []
     # speed formula
